@@ -1,6 +1,7 @@
 package resolve
 
 import (
+	"context"
 	"encoding/binary"
 	"sync"
 	"sync/atomic"
@@ -48,6 +49,15 @@ type InflightRequest struct {
 	ID         uint64
 
 	followerCount atomic.Int32
+
+	// leaderCtx is the context of the request that created this InflightRequest.
+	// When the leader's client goes away, the leader's outcome is the outcome of
+	// its own cancellation and must not be handed to followers.
+	leaderCtx context.Context
+}
+
+func (r *InflightRequest) leaderCancelled() bool {
+	return r.leaderCtx != nil && r.leaderCtx.Err() != nil
 }
 
 func (r *InflightRequest) AddFollower() {
@@ -94,6 +104,7 @@ func (r *InboundRequestSingleFlight) GetOrCreate(ctx *Context, response *GraphQL
 		Done: make(chan struct{}),
 		ID:   key,
 	}
+	request.leaderCtx = ctx.ctx
 
 	inflight, shared := shard.m.LoadOrStore(key, request)
 	if shared {
@@ -126,6 +137,11 @@ func (r *InboundRequestSingleFlight) FinishOk(req *InflightRequest, data []byte)
 	}
 	shard := r.shardFor(req.ID)
 	shard.m.Delete(req.ID)
+	if req.leaderCancelled() {
+		// share nothing: followers resolve independently (see GetOrCreate)
+		close(req.Done)
+		return
+	}
 	if req.HasFollowers() {
 		// optimization to only copy when we actually have to
 		req.Data = make([]byte, len(data))
@@ -140,6 +156,11 @@ func (r *InboundRequestSingleFlight) FinishErr(req *InflightRequest, err error) 
 	}
 	shard := r.shardFor(req.ID)
 	shard.m.Delete(req.ID)
+	if req.leaderCancelled() {
+		// share nothing: followers resolve independently (see GetOrCreate)
+		close(req.Done)
+		return
+	}
 	req.Err = err
 	close(req.Done)
 }
